@@ -107,6 +107,9 @@ func c02exec(c *h.Ctx, cs *h.Case) {
 				if it.Node != nil {
 					id = "?"
 					for i, n := range nodes {
+						if id != "?" {
+							break // a tree may hold several nodes with that id (one server, two nodes): the first names it
+						}
 						if n.ID.Equal(it.Node.ID) {
 							_, si := ct.t.Roster.Search(n.ServerIdentity.ID)
 							srv := -1
@@ -158,6 +161,8 @@ func c02exec(c *h.Ctx, cs *h.Case) {
 			scr = len(tk) == 7 && tk[6] == "scrambled-index"
 			if scr {
 				ct = f.scrambled(isRoot, k, true)
+			} else if len(tk) == 7 && tk[6] == "repeated-server" {
+				ct = c02repeated(f, isRoot, k)
 			} else if len(tk) == 7 {
 				// a tree the receiver has never seen: same servers and shape over a re-ordered roster
 				ct = f.unknownTree(isRoot, k, rand.New(rand.NewSource(c.Seed*1000003+atomic.AddInt64(&c02unknown, 1))))
@@ -597,6 +602,48 @@ func c02gen(c *h.Ctx, yield func(*h.Case)) {
 							c.Count("sender=" + classify(s, p))
 							yield(cs)
 						}
+					}
+				}
+			}
+		}
+	}
+	// a tree in which the server of the first child also hosts the last child: two nodes with one id
+	for _, root := range []bool{false, true} {
+		for _, k := range []int{2, 3} {
+			first := 2
+			if root {
+				first = 1
+			}
+			var ns []string
+			for i := 0; i < first+k-1; i++ {
+				ns = append(ns, fmt.Sprintf("%d:%d", 10+i, i))
+			}
+			ns = append(ns, fmt.Sprintf("%d:%d", 10+first, first))
+			par := "10"
+			if root {
+				par = "-"
+			}
+			cfgRep := fmt.Sprintf("c02 cfg %s %s %d 1,2 repeated-server", strings.Join(ns, ","), par, k)
+			for ty := 1; ty <= 4; ty++ {
+				snd := []string{strconv.Itoa(10 + first), "99", "-"}
+				if k >= 3 {
+					snd = append(snd, strconv.Itoa(10+first+1)) // a sibling hosted once
+				}
+				for _, s := range snd {
+					for _, p := range []string{strconv.Itoa(first), strconv.Itoa(first + 1), "10", "-"} {
+						cs := &h.Case{Class: "repeated-server"}
+						cs.Ops = append(cs.Ops, cfgRep)
+						val++
+						cs.Ops = append(cs.Ops, fmt.Sprintf("c02 msg %d %s %s %d", ty, s, p, val))
+						// the honest children: the doubly hosted one sends twice (once per node)
+						for i := 0; i < k-1; i++ {
+							val++
+							cs.Ops = append(cs.Ops, fmt.Sprintf("c02 msg %d %d %d %d", ty, 10+first+i, first+i, val))
+						}
+						val++
+						cs.Ops = append(cs.Ops, fmt.Sprintf("c02 msg %d %d %d %d", ty, 10+first, first, val))
+						c.Count("class=repeated-server")
+						yield(cs)
 					}
 				}
 			}
